@@ -689,4 +689,87 @@ theorem setColStyle_ok (reg : Reg) (g : Grid) (mn mx : Nat) (sid : Int) (hv : va
     simp only [hf]
   · simp only [hr, if_false]
 
+/-! ### `<cols>` with ranges (worksheets opened from files) -/
+
+/-- no two entries of the column list cover a common column (what the file format requires) -/
+def ColsDisjoint (cols : List Col) : Prop := cols.Pairwise (fun a b => a.max < b.min ∨ b.max < a.min)
+
+def covers (k : Col) (c : Nat) : Prop := k.min ≤ c ∧ c ≤ k.max
+
+theorem getColStyle_fold_nocover (c : Nat) (t : List Col) (acc : Nat) (h : ∀ k ∈ t, ¬ covers k c) :
+    t.foldl (fun acc k => if k.min ≤ c ∧ c ≤ k.max then k.style else acc) acc = acc := by
+  induction t generalizing acc with
+  | nil => rfl
+  | cons x u ih =>
+    simp only [List.foldl_cons]
+    have hx : ¬ (x.min ≤ c ∧ c ≤ x.max) := h x (by simp)
+    simp only [hx, if_false]
+    exact ih acc (fun k hk => h k (List.mem_cons_of_mem _ hk))
+
+theorem colOf_nocover (c : Nat) (t : List Col) (h : ∀ k ∈ t, ¬ covers k c) : colOf t c = 0 := by
+  unfold colOf
+  have : t.find? (fun k => k.min ≤ c && c ≤ k.max && k.style != 0) = none := by
+    rw [List.find?_eq_none]; intro k hk
+    have := h k hk
+    unfold covers at this
+    simp; intro a b; exact absurd ⟨a, b⟩ this
+  rw [this]
+
+/-- the resolution rule on range entries: `prepareCellStyle` takes the FIRST covering entry with a
+non-zero style, `GetColStyle` the LAST covering entry; on a list without overlaps both are the style
+of the one entry that covers the column (0 if none) -/
+theorem cols_disjoint_agree_aux (c : Nat) (l : List Col) (h : ColsDisjoint l) (acc : Nat) :
+    l.foldl (fun acc k => if k.min ≤ c ∧ c ≤ k.max then k.style else acc) acc =
+      if l.any (fun k => decide (k.min ≤ c) && decide (c ≤ k.max)) then colOf l c else acc := by
+  induction l generalizing acc with
+  | nil => simp
+  | cons x t ih =>
+    unfold ColsDisjoint at h
+    rw [List.pairwise_cons] at h
+    simp only [List.foldl_cons, List.any_cons]
+    by_cases hx : x.min ≤ c ∧ c ≤ x.max
+    · have hno : ∀ k ∈ t, ¬ covers k c := by
+        intro k hk hc
+        have := h.1 k hk
+        unfold covers at hc
+        omega
+      have hd : (decide (x.min ≤ c) && decide (c ≤ x.max)) = true := by simp [hx.1, hx.2]
+      simp only [hx, and_self, if_true, hd, Bool.true_or]
+      rw [getColStyle_fold_nocover c t _ hno]
+      unfold colOf
+      simp only [List.find?_cons]
+      by_cases hs : x.style = 0
+      · have := colOf_nocover c t hno
+        unfold colOf at this
+        simp [hx, hs, this]
+      · have hp : (decide (x.min ≤ c) && decide (c ≤ x.max) && x.style != 0) = true := by
+          simp [hx.1, hx.2, hs]
+        simp only [hp, if_true]
+        simp
+    · have hd : (decide (x.min ≤ c) && decide (c ≤ x.max)) = false := by
+        simp; intro a; omega
+      simp only [hx, if_false, hd, Bool.false_or]
+      rw [ih h.2 acc]
+      have hcol : colOf (x :: t) c = colOf t c := by
+        unfold colOf
+        simp only [List.find?_cons]
+        have : (decide (x.min ≤ c) && decide (c ≤ x.max) && x.style != 0) = false := by
+          rw [hd]; rfl
+        simp [this]
+      rw [hcol]
+
+theorem cols_disjoint_agree (g : Grid) (h : ColsDisjoint g.cols) (c : Nat) : getColStyle g c = colS g c := by
+  unfold getColStyle
+  rw [cols_disjoint_agree_aux c g.cols h 0, colS_eq_colOf]
+  by_cases hex : g.cols.any (fun k => decide (k.min ≤ c) && decide (c ≤ k.max)) = true
+  · simp only [hex, if_true]
+  · simp only [hex, if_false]
+    have : ∀ k ∈ g.cols, ¬ covers k c := by
+      intro k hk hc
+      apply hex
+      rw [List.any_eq_true]
+      exact ⟨k, hk, by unfold covers at hc; simp [hc.1, hc.2]⟩
+    rw [colOf_nocover c g.cols this]
+    simp
+
 end XlModel.Styles
